@@ -254,7 +254,75 @@ class World:
             v = hook(ex, o, attr)
             if v is not KeyError:
                 return v
+        # the object was put together by a contract, not by its constructor: an attribute that the class itself sets is
+        # missing from the model, not from the program - initialise it as the constructor does when that is a literal,
+        # otherwise the variant cannot judge this code (out of reach, never an AttributeError that reads as a violation)
+        init = self._class_attr_initialiser(o.cls, attr)
+        if init is not None:
+            kind, node = init
+            if kind == "literal":
+                v = self._literal_value(node)
+                if v is not KeyError:
+                    o.fields[attr] = v
+                    ex.ghost.setdefault("lazy_fields", []).append((o, attr))
+                    return v
+            raise Unsupported("attribute %s of %s is set by the class but not modelled by this contract" % (attr, o.cls))
         raise PyRaise(ExcVal("AttributeError", (attr,)))
+
+    def _class_attr_initialiser(self, cls, attr):
+        """-> None if no class of the MRO assigns self.<attr>; ("literal", ast) for a literal initialiser in an __init__;
+        ("other", None) otherwise"""
+        cache = self.__dict__.setdefault("_attr_init_cache", {})
+        key = (cls, attr)
+        if key in cache:
+            return cache[key]
+        res = None
+        try:
+            mro = self.repo.mro(cls)
+        except Exception:
+            mro = []
+        for c in mro:
+            mi, ci = self.repo.find_class(c)
+            if not ci:
+                continue
+            for mname, fi in ci["methods"].items():
+                for n in ast.walk(fi.node):
+                    tgt, val = None, None
+                    if isinstance(n, ast.Assign) and len(n.targets) == 1:
+                        tgt, val = n.targets[0], n.value
+                    elif isinstance(n, ast.AnnAssign):
+                        tgt, val = n.target, n.value
+                    if isinstance(tgt, ast.Attribute) and isinstance(tgt.value, ast.Name) and tgt.value.id == "self" and tgt.attr == attr:
+                        if mname == "__init__" and val is not None and self._literal_value(val) is not KeyError:
+                            res = ("literal", val)
+                            break
+                        if res is None:
+                            res = ("other", None)
+                if res is not None and res[0] == "literal":
+                    break
+            if res is not None and res[0] == "literal":
+                break
+        cache[key] = res
+        return res
+
+    def _literal_value(self, node):
+        from .symex import SetVal, DictVal
+        if isinstance(node, ast.Constant):
+            return node.value
+        if isinstance(node, ast.Dict) and not node.keys:
+            return DictVal()
+        if isinstance(node, ast.List) and not node.elts:
+            return []
+        if isinstance(node, ast.Tuple) and not node.elts:
+            return ()
+        if isinstance(node, ast.Call) and not node.args and not node.keywords and isinstance(node.func, ast.Name):
+            if node.func.id == "dict":
+                return DictVal()
+            if node.func.id == "list":
+                return []
+            if node.func.id == "set":
+                return SetVal()
+        return KeyError
 
     def node_attr(self, ex, n, attr):
         if attr == "_content":
